@@ -5,7 +5,7 @@
    a frame that was in the log when its COMMIT returned. *)
 From Coq Require Import ZArith List Bool Arith Lia.
 From TV Require Import Lib.Interleave Model.GroupCommit Model.CommitOrder.
-From TV Require Import Proof.GroupCommitStep Proof.GroupCommitSafe Proof.GroupCommitLive.
+From TV Require Import Proof.GroupCommitStep Proof.GroupCommitSafe Proof.GroupCommitLive Proof.GroupCommitRepair.
 Import ListNotations.
 Open Scope Z_scope.
 
@@ -516,3 +516,112 @@ Lemma coverage_outside_known_classes_l :
     forall a, In a (lacks s) -> covered (frames s) a = true.
 Proof. intros fx progs sched Hwf s Hb Hs. apply (ks_lacks _ (KS_run fx progs sched Hwf)); assumption. Qed.
 
+
+(* ------------------------------------------------------------------ the code as it is (fx = true): class 3 is empty *)
+(* handing a base thread its next commit (the layer's capture step) touches no field the
+   liveness / single-leader invariants of the C37 protocol look at *)
+Definition with_prog (th : thr) (p : list op) : thr :=
+  Thr p (cur th) (pc th) (kidx th) (myid th) (elected th) (batch th) (wok th).
+
+Lemma LI_set_prog fx s l t th p :
+  lget l t = Some th -> LI fx (MkSt s l) -> LI fx (MkSt s (lset l t (with_prog th p))).
+Proof.
+  intros Hl HL.
+  pose proof (li_fip _ _ HL) as li_fip0. pose proof (li_wait _ _ HL) as li_wait0. pose proof (li_held _ _ HL) as li_held0.
+  pose proof (li_sub _ _ HL) as li_sub0. pose proof (li_owner _ _ HL) as li_owner0. pose proof (li_subs _ _ HL) as li_subs0.
+  pose proof (li_att _ _ HL) as li_att0. cbn [sh thrs] in *.
+  assert (Hex : forall P : thr -> bool, (forall x, P (with_prog x p) = P x) -> Ex P l -> Ex P (lset l t (with_prog th p))).
+  { intros P HP A. eapply Ex_step; [exact Hl | exact A | rewrite HP; auto]. }
+  assert (Hc1 : forall x, comm1 (with_prog x p) = comm1 x) by (intros []; reflexivity).
+  assert (Hc2 : forall x, comm2 (with_prog x p) = comm2 x) by (intros []; reflexivity).
+  assert (Hpo : forall x, potent fx (with_prog x p) = potent fx x) by (intros []; reflexivity).
+  constructor; cbn [sh thrs].
+  - intros Hf. destruct (li_fip0 Hf) as [A|[B1 B2]]; [left | right; split; [exact B1|]]; eapply Hex; eauto.
+  - intros Hf. destruct (li_wait0 Hf) as [A|[B1 B2]]; [left | right; split; [exact B1|]]; eapply Hex; eauto.
+  - intros c u Hin. destruct (li_held0 c u Hin) as [A|B]; [left; exact A | right].
+    eapply exth_step; [exact Hl | exact B|]. intros _ Hh. destruct th; exact Hh.
+  - intros u x Hu Hw. destruct (lget_lset_cases _ _ _ _ _ Hu) as [[-> ->]|[Hne Hu']].
+    + destruct th; cbn in *. apply (li_sub0 t _ Hl Hw).
+    + apply (li_sub0 u x Hu' Hw).
+  - intros c Hc. destruct (li_owner0 c Hc) as [u [x [Hu [Hm Ho]]]].
+    destruct (Nat.eq_dec t u) as [->|Hne].
+    + exists u, (with_prog th p). split; [apply lget_lset_same|]. assert (x = th) by congruence. subst x.
+      destruct th; cbn in *; auto.
+    + exists u, x. split; [rewrite lget_lset_other by exact Hne; exact Hu | auto].
+  - exact li_subs0.
+  - intros c u Hin. destruct (li_att0 c u Hin) as [A|B]; [left; exact A | right].
+    eapply exth_step; [exact Hl | exact B|]. intros _ Hh. destruct th; exact Hh.
+Qed.
+
+Lemma RI_set_prog s l t th p :
+  lget l t = Some th -> RI (MkSt s l) -> RI (MkSt s (lset l t (with_prog th p))).
+Proof.
+  intros Hl HR.
+  pose proof (ri_nel _ HR) as ri_nel0. pose proof (ri_fip _ HR) as ri_fip0. pose proof (ri_one _ HR) as ri_one0.
+  pose proof (ri_304 _ HR) as ri_3040. pose proof (ri_own _ HR) as ri_own0. pose proof (ri_stolen _ HR) as ri_stolen0.
+  cbn [sh thrs] in *.
+  assert (Hle : leader (with_prog th p) = leader th) by (destruct th; reflexivity).
+  constructor; cbn [sh thrs].
+  - intros u x Hu Hp. destruct (lget_lset_cases _ _ _ _ _ Hu) as [[-> ->]|[Hne Hu']]; [|eapply ri_nel0; eauto].
+    specialize (ri_nel0 t th Hl). destruct th; cbn in *. auto.
+  - intros u x Hu Hp. destruct (lget_lset_cases _ _ _ _ _ Hu) as [[-> ->]|[Hne Hu']]; [|eapply ri_fip0; eauto].
+    rewrite Hle in Hp. eapply ri_fip0; eauto.
+  - intros u v xu xv Hne Hu Hv Hlu Hlv.
+    destruct (lget_lset_cases _ _ _ _ _ Hu) as [[-> ->]|[Hnu Hu']];
+      destruct (lget_lset_cases _ _ _ _ _ Hv) as [[-> ->]|[Hnv Hv']]; rewrite ?Hle in *.
+    + congruence.
+    + eapply (ri_one0 t v); eauto.
+    + eapply (ri_one0 u t); eauto.
+    + eapply (ri_one0 u v); eauto.
+  - intros u x Hu Hp. destruct (lget_lset_cases _ _ _ _ _ Hu) as [[-> ->]|[Hne Hu']]; [|eapply ri_3040; eauto].
+    specialize (ri_3040 t th Hl). destruct th; cbn in *. auto.
+  - intros u x Hu Hp He. destruct (lget_lset_cases _ _ _ _ _ Hu) as [[-> ->]|[Hne Hu']]; [|eapply ri_own0; eauto].
+    specialize (ri_own0 t th Hl). destruct th; cbn in *. auto.
+  - exact ri_stolen0.
+Qed.
+
+Lemma RInv_set_prog s t p : RInv s -> RInv (set_base_prog s t p).
+Proof.
+  intros [[HI HL] HR]. unfold set_base_prog. destruct (lget (thrs s) t) as [th|] eqn:E; [|exact (conj (conj HI HL) HR)].
+  pose proof (Inv_set_prog s t p HI) as HI'. unfold set_base_prog in HI'. rewrite E in HI'.
+  destruct s as [sg l]. cbn [sh thrs] in *.
+  split; [split; [exact HI'|]|].
+  - apply (LI_set_prog true sg l t th p E HL).
+  - apply (RI_set_prog sg l t th p E HR).
+Qed.
+
+Lemma step38_base fx t s s' :
+  step38 fx t s = Some s' ->
+  base s' = base s \/ (exists p, base s' = set_base_prog (base s) t p) \/ step fx t (base s) = Some (base s').
+Proof.
+  unfold step38. destruct (lget (lthrs s) t) as [lt|]; [|discriminate].
+  destruct (lpc lt).
+  - destruct (lprog lt); [discriminate|]. intros H. injection H as <-. left. reflexivity.
+  - destruct ws as [|[p u] ws]; intros H; injection H as <-; left; reflexivity.
+  - intros H. injection H as <-. left. reflexivity.
+  - destruct (tracker s); intros H; injection H as <-; left; reflexivity.
+  - intros H. injection H as <-. right. left. eexists. reflexivity.
+  - destruct (base_finished (base s) t); [intros H; injection H as <-; left; reflexivity|].
+    destruct (step fx t (base s)) as [b'|] eqn:E; [|discriminate]. intros H. injection H as <-. right. right. reflexivity.
+Qed.
+
+Theorem RInv_run38 progs sched : RInv (base (run (step38 true) sched (init38 progs))).
+Proof.
+  apply (invariant_rule St38 (step38 true) (fun s => RInv (base s))).
+  - cbn [init38 base]. apply RInv_init.
+  - intros t s s' HR Hst. destruct (step38_base _ _ _ _ Hst) as [->|[[p ->]|Hb]].
+    + exact HR.
+    + apply RInv_set_prog. exact HR.
+    + eapply RInv_step; eauto.
+Qed.
+
+(* the code as it is: only class 2 is left *)
+Lemma coverage_outside_known_class_l :
+  forall progs sched, wf_progs progs ->
+    let s := run (step38 true) sched (init38 progs) in
+    borrowed s = false ->
+    forall a, In a (lacks s) -> covered (frames s) a = true.
+Proof.
+  intros progs sched Hwf s Hb. apply (coverage_outside_known_classes_l true progs sched Hwf Hb).
+  apply (ri_stolen _ (proj2 (RInv_run38 progs sched))).
+Qed.
